@@ -27,6 +27,9 @@ func init() {
 func runC11(w *World, r *Report) {
 	la := NewLockAn(w)
 	hrLockOwnersUsePointerReceivers(w, r, "R1", "lunar/")
+	hrMessageArgsByName(w, r, "R2")
+	hrDiagnosisWorkerKey(w, r, "R2")
+	hrWriteErrorReturned(w, r, "R6")
 	hrVersionBumpReturnsPrevious(w, r, "R4")
 	hrVacuumStartOnce(w, r, la, "R1")
 	checkGB(w, r, la, "R1", []GuardRow{
